@@ -66,7 +66,7 @@ pub fn mk_un(u: Un, e: Ast) -> Ast {
         Un::AndAssignX => Ast::Asg(Some(BinOp::And), "x".into(), b),
         Un::CallR => Ast::Call("r".into(), b),
         Un::CallS => Ast::Call("s".into(), b),
-        Un::CallFail => Ast::Call("fail".into(), b),
+        Un::CallFail => Ast::Call("typeof".into(), b),
         Un::Neg => Ast::Pre(UnOp::Neg, b),
         Un::PartialAdd => Ast::Partial(BinOp::Add, b),
     }
